@@ -1,6 +1,7 @@
 import Enc.Model.Json.CodecChoiceDec
 import Enc.Spec.Json.StdCodecChoiceDec
 import Enc.Driver.JsonCodec
+import Enc.Spec.Json.EmbedCycle
 /-!
 Driver for the op `json.codecchoicedec <descriptor> <variant>` (descriptor grammar: Driver/JsonCodec.lean; the harness,
 harness/c01codecdec.go, derives the descriptor from a Go value by reflection).
@@ -8,7 +9,8 @@ harness/c01codecdec.go, derives the descriptor from a Go value by reflection).
 The CANONICAL DOCUMENT of a type is the JSON text of its canonical value (Driver/JsonCodec.lean: true, 7, 1.5, "s",
 Number 1, Duration 7, zero Time, RawMessage [1], one element per slice / map, pointers, slices and maps nil below
 `maxIndir` indirections) written by kind alone: no method is consulted, promoted fields of embedded structs are members
-of the enclosing object, a field with the `string` option (scalar kinds, one unnamed pointer removed) is quoted, a
+of the enclosing object (of the members with the same name — a cycle of embedded pointers — the shallowest one is
+written), a field with the `string` option (scalar kinds, one unnamed pointer removed) is quoted, a
 `[]E` with E of kind uint8 is the base64 string "Bw==" unless `*E` has an unmarshaling method (then `[7]`).
 
 Variants: `full` — the canonical document into a fresh (zero) target; `fullp` — into a target PRE-FILLED with the
@@ -79,6 +81,13 @@ def hasUnm (env : Env) (e : TD) : Bool := implPtr env .uj e || implPtr env .ut e
 def keyText (env : Env) (k : TD) : String :=
   if isIntKind (under env k) then "7" else "s"
 
+/-- of the members with the same name (promoted through a cycle of embedded pointers) the shallowest one is written, the
+first one of these -/
+def shallowest (ms : List (String × Nat × J)) : List (String × J) :=
+  let ims := (List.range ms.length).zip ms
+  ims.filterMap fun (i, (n, d, j)) =>
+    if ims.any (fun (i2, (n2, d2, _)) => n2 == n && (d2 < d || (d2 == d && i2 < i))) then none else some (n, j)
+
 mutual
 /-- the canonical document of type `t`, `visits` indirections below the root; `alt`: byte-slice forms swapped -/
 partial def docOf (env : Env) (alt : Bool) (t : TD) (visits : Nat) : J :=
@@ -101,10 +110,11 @@ partial def docOf (env : Env) (alt : Bool) (t : TD) (visits : Nat) : J :=
     | .array n e => .arr (List.replicate n (docOf env alt e visits))
     | .map k v => .obj [(keyText env k, docOf env alt v (visits + 1))]
     | .ptr e => docOf env alt e (visits + 1)
-    | .struct fs => .obj (docFields env alt fs visits)
+    | .struct fs => .obj (shallowest (docFields env alt fs visits 0))
     | .any dyn | .iface _ _ dyn => (match dyn with | .nil => .null | dyn => docOf env alt dyn visits)
     | _ => .null
-partial def docFields (env : Env) (alt : Bool) (fs : FL) (visits : Nat) : List (String × J) :=
+/-- the members with the depth of embedding they are promoted from -/
+partial def docFields (env : Env) (alt : Bool) (fs : FL) (visits depth : Nat) : List (String × Nat × J) :=
   match fs with
   | .nil => []
   | .cons name emb str ft rest =>
@@ -112,15 +122,15 @@ partial def docFields (env : Env) (alt : Bool) (fs : FL) (visits : Nat) : List (
     let here :=
       if emb && isStructKind (under env typ) then
         if isPtrKind ft then
-          (if maxIndir ≤ visits then [] else docFields env alt (fieldsOf env typ) (visits + 1))
-        else docFields env alt (fieldsOf env typ) visits
+          (if maxIndir ≤ visits then [] else docFields env alt (fieldsOf env typ) (visits + 1) (depth + 1))
+        else docFields env alt (fieldsOf env typ) visits (depth + 1)
       else
         let j := docOf env alt ft visits
         let j := if str && isScalarKind (under env typ) then
             (match j with | .null => J.null | j => .lit j.render .str)
           else j
-        [(name, j)]
-    here ++ docFields env alt rest visits
+        [(name, depth, j)]
+    here ++ docFields env alt rest visits depth
 end
 
 /-! ### dumps -/
@@ -290,6 +300,60 @@ def isFloatKind : TD → Bool
   | .prim .float32 | .prim .float64 => true
   | _ => false
 
+/-- the field list of a structType laid over the fields of the TYPE: which entry decodes which field. `sub = none`: the
+embedded struct contributes no entries (the promotion was cut there). -/
+inductive FT where
+  | leaf (name : String) (ft : TD) (c : DChoice)
+  | emb (name : String) (ft : TD) (sub : Option (List FT))
+
+def embedCount : DChoice → Nat
+  | .embedPtr x => embedCount x + 1
+  | _ => 0
+
+def dlLength : DL → Nat
+  | .nil => 0
+  | .cons _ _ _ r => dlLength r + 1
+
+/-- the entries are in field order, the entries of an embedded struct in place, wrapped once per embedded pointer on the
+way (`k`); an embedded struct is entered only when the next entry can belong to it (this bounds the descent through a
+cycle of embedded pointers). `none`: the list does not fit the type. -/
+partial def parseFields (env : Env) (fs : FL) (k : Nat) (dl : DL) : Option (List FT × DL) :=
+  match fs with
+  | .nil => some ([], dl)
+  | .cons name emb _ ft rest =>
+    let typ := peel ft
+    if emb && isStructKind (under env typ) then
+      let k' := if isPtrKind ft then k + 1 else k
+      let present : Option (List FT × DL) :=
+        match dl with
+        | .nil => none
+        | .cons _ _ c _ =>
+          if embedCount c < k' then none
+          else
+            match parseFields env (fieldsOf env typ) k' dl with
+            | some (sub, dl') => if dlLength dl' < dlLength dl then some (sub, dl') else none
+            | none => none
+      match present with
+      | some (sub, dl') => do
+        let (r, dl'') ← parseFields env rest k dl'
+        pure (.emb name ft (some sub) :: r, dl'')
+      | none => do
+        let (r, dl'') ← parseFields env rest k dl
+        pure (.emb name ft none :: r, dl'')
+    else
+      match dl with
+      | .cons n _ c r =>
+        if n == name && embedCount c == k then do
+          let (x, dl') ← parseFields env rest k r
+          pure (.leaf name ft c :: x, dl')
+        else none
+      | .nil => none
+
+partial def FT.leaves : FT → List String
+  | .leaf n _ _ => [n]
+  | .emb _ _ none => []
+  | .emb _ _ (some sub) => sub.flatMap FT.leaves
+
 mutual
 partial def dec (env : Env) (sem : Sem) (c : DChoice) (t : TD) (j : J) (st : St) : Option String :=
   let u := under env t
@@ -397,9 +461,12 @@ partial def dec (env : Env) (sem : Sem) (c : DChoice) (t : TD) (j : J) (st : St)
         | _, _ => some "BAD-map")
     | .struct dl =>
       (match u, j with
-        | .struct fs, .obj ms => do
-          let rs ← decFields env sem fs dl ms st
-          pure ("{" ++ String.intercalate "," rs ++ "}")
+        | .struct fs, .obj ms =>
+          (match parseFields env fs 0 dl with
+            | some (fts, .nil) => do
+              let rs ← decFields env sem fts ms st
+              pure ("{" ++ String.intercalate "," rs ++ "}")
+            | _ => some "BAD-fields")
         | .struct _, _ => none
         | _, _ => some "BAD-struct")
     | .quoted x | .quotedInt x =>
@@ -442,33 +509,33 @@ partial def decKey (env : Env) (kc : DChoice) (k : TD) (name : String) : Option 
       | .special _ => none
       | _ => some (afterMethod env .uj k false .zero))
   | _ => none
-/-- decodeStruct / d.object into a struct: by the fields of the TYPE; the decoder of a field is looked up by name -/
-partial def decFields (env : Env) (sem : Sem) (fs : FL) (dl : DL) (ms : List (String × J)) (st : St) :
+/-- decodeStruct / d.object into a struct: by the fields of the TYPE, each with the entry of the structType that decodes it -/
+partial def decFields (env : Env) (sem : Sem) (fts : List FT) (ms : List (String × J)) (st : St) :
     Option (List String) :=
-  match fs with
-  | .nil => some []
-  | .cons name emb _ ft rest => do
-    let typ := match ft with | .ptr e => e | t => t
+  match fts with
+  | [] => some []
+  | f :: rest => do
     let here ←
-      if emb && isStructKind (under env typ) then
-        let sfs := fieldsOf env typ
+      match f with
+      | .emb name ft none => pure (name ++ ":" ++ dumpVal env ft st)
+      | .emb name ft (some sub) =>
         if isPtrKind ft then
           -- decodeEmbeddedStructPointer allocates as soon as a promoted field is decoded (a `null` included)
-          let touched := (leafNames env 8 sfs).any fun n => (dl.find n).isSome && (ms.lookup n).isSome
+          let touched := (sub.flatMap FT.leaves).any fun n => (ms.lookup n).isSome
           if st.nonNil || touched then do
-            let rs ← decFields env sem sfs dl ms st.inner
+            let rs ← decFields env sem sub ms st.inner
             pure (name ++ ":&{" ++ String.intercalate "," rs ++ "}")
           else pure (name ++ ":nil")
         else do
-          let rs ← decFields env sem sfs dl ms st
+          let rs ← decFields env sem sub ms st
           pure (name ++ ":{" ++ String.intercalate "," rs ++ "}")
-      else
-        match dl.find name, ms.lookup name with
-        | some (_, fc), some fj => do
+      | .leaf name ft fc =>
+        match ms.lookup name with
+        | some fj => do
           let r ← dec env sem (stripEmbed fc) ft fj st
           pure (name ++ ":" ++ r)
-        | _, _ => pure (name ++ ":" ++ dumpVal env ft st)
-    let r ← decFields env sem rest dl ms st
+        | none => pure (name ++ ":" ++ dumpVal env ft st)
+    let r ← decFields env sem rest ms st
     pure (here :: r)
 end
 
@@ -534,10 +601,17 @@ end
 def allTypes (env : Env) (t : TD) : List TD :=
   subTypes env 16 t ++ env.flatMap fun (id, d) => TD.ref id :: subTypes env 16 d.under
 
+/-- the shape that can still differ after the repair of `jsonEmbeddedStructUnderConstruction` (json/codec.go
+`structType.root`): the root type, or the type of the content of an interface inside the value (each is compiled on its
+own, through the cache), has a struct type on a cycle of EMBEDDED structs (Spec/Json/EmbedCycle.lean) -/
+def embedCycleAny (env : Env) (t : TD) : Bool :=
+  let roots := t :: (dyns t ++ env.flatMap fun (_, d) => dyns d.under)
+  roots.any (Enc.Spec.Json.EmbedCycle.embedCycle env)
+
 def classes (env : Env) (t : TD) (v : Variant) : List String :=
   let ts := allTypes env t
   let isNullVar := (docFor env t v).hasNull
-  let c1 := if embedsRecursive env t then ["jsonEmbeddedStructUnderConstruction"] else []
+  let c1 := if embedCycleAny env t then ["jsonEmbeddedStructUnderConstruction"] else []
   let c2 := if ts.any (fun x => match x with
       | .struct _ => implPtrU env .uj x || implPtrU env .ut x
       | _ => false) then ["jsonDecPromotedUnmarshalerOfUnnamedStruct"] else []
